@@ -523,6 +523,7 @@ def check(repo, run, tier):
     g(ct.pairing, repo, run, 'C01.R6', classes=('ConfigList',), ops=['__init__', 'extend', 'append'])
     g(unitrules.none_scalar_table, repo, run, 'C01.R8')
     g(unitrules.unchecked_path_prefixes, repo, run, 'C01.R9')
+    g(unitrules.list_path_table, repo, run, 'C01.R9')
     g.done()
 
 
